@@ -1981,6 +1981,336 @@ fn run_clock_history(work: &str, hist: usize, seed: u64) -> (String, BTreeMap<St
 	finish(m)
 }
 
+// ---------------------------------------------------------------------------------------------
+// run `relay`: the relay-peer branch of the stem path with REAL `p2p::Peer` objects in the real
+// `Peers` map: each fake remote is a local TCP socket that answers the real handshake
+// (`Peer::connect` -> outbound peer; `Peer::accept` -> inbound peer) and is then read by the harness:
+// a stem transaction handed to the relay arrives there as a `StemTransaction` frame (type 14).
+
+struct FakePeer {
+	id: usize,
+	peer: Arc<grin_p2p::Peer>,
+	remote: Option<std::net::TcpStream>,
+	outbound: bool,
+	banned: bool,
+	alive: bool,
+}
+
+fn wire_msg(msg: &grin_p2p::msg::Msg) -> Vec<u8> {
+	let mut v: Vec<u8> = Vec::new();
+	grin_p2p::msg::write_message(&mut v, msg, Arc::new(grin_p2p::verif_export::Tracker::new())).unwrap();
+	v
+}
+
+/// one frame from the socket within `ms`: its type byte
+fn read_frame_type(s: &mut std::net::TcpStream, ms: u64) -> Option<u8> {
+	use std::io::Read;
+	let _ = s.set_read_timeout(Some(std::time::Duration::from_millis(ms)));
+	let mut head = [0u8; 11];
+	let mut got = 0;
+	while got < 11 {
+		match s.read(&mut head[got..]) {
+			Ok(0) => return None,
+			Ok(n) => got += n,
+			Err(_) => {
+				if got == 0 {
+					return None;
+				}
+				let _ = s.set_read_timeout(Some(std::time::Duration::from_secs(10)));
+			}
+		}
+	}
+	let mut l = [0u8; 8];
+	l.copy_from_slice(&head[3..11]);
+	let mut body = vec![0u8; (u64::from_be_bytes(l) as usize).min(1 << 22)];
+	let _ = s.set_read_timeout(Some(std::time::Duration::from_secs(10)));
+	if s.read_exact(&mut body).is_err() {
+		return None;
+	}
+	Some(head[2])
+}
+
+fn make_fake_peer(id: usize, genesis: grin_core::core::hash::Hash, outbound: bool) -> Option<FakePeer> {
+	use grin_core::pow::Difficulty;
+	use grin_core::ser::ProtocolVersion;
+	use grin_p2p::handshake::Handshake;
+	use grin_p2p::msg::{Hand, Msg, Shake, Type};
+	use grin_p2p::types::{Capabilities, P2PConfig, PeerAddr};
+	use std::io::Write;
+	let listener = std::net::TcpListener::bind("127.0.0.1:0").ok()?;
+	let laddr = listener.local_addr().ok()?;
+	let adapter = Arc::new(grin_p2p::DummyAdapter {});
+	if outbound {
+		let t = std::thread::spawn(move || {
+			setup_globals();
+			let hs = Handshake::new(genesis, P2PConfig::default());
+			let conn = std::net::TcpStream::connect(laddr).ok()?;
+			grin_p2p::Peer::connect(conn, Capabilities::default(), Difficulty::from_num(1), PeerAddr("127.0.0.1:3415".parse().unwrap()), &hs, adapter).ok()
+		});
+		let (mut remote, _) = listener.accept().ok()?;
+		let _ = remote.set_nodelay(true);
+		read_frame_type(&mut remote, 10_000)?;
+		let shake = Shake {
+			version: ProtocolVersion::local(),
+			capabilities: Capabilities::default(),
+			genesis,
+			total_difficulty: Difficulty::from_num(5),
+			user_agent: "verif/relay".to_string(),
+		};
+		let _ = remote.write_all(&wire_msg(&Msg::new(Type::Shake, shake, ProtocolVersion(1)).ok()?));
+		let peer = t.join().ok()??;
+		Some(FakePeer { id, peer: Arc::new(peer), remote: Some(remote), outbound: true, banned: false, alive: true })
+	} else {
+		let mut client = std::net::TcpStream::connect(laddr).ok()?;
+		let _ = client.set_nodelay(true);
+		let (server, _) = listener.accept().ok()?;
+		let t = std::thread::spawn(move || {
+			setup_globals();
+			let hs = Handshake::new(genesis, P2PConfig::default());
+			grin_p2p::Peer::accept(server, Capabilities::default(), Difficulty::from_num(1), &hs, adapter).ok()
+		});
+		let hand = Hand {
+			version: ProtocolVersion::local(),
+			capabilities: Capabilities::default(),
+			nonce: 0x5eed_0000 + id as u64,
+			genesis,
+			total_difficulty: Difficulty::from_num(5),
+			sender_addr: PeerAddr(format!("127.0.0.1:{}", 3500 + id).parse().unwrap()),
+			receiver_addr: PeerAddr(laddr),
+			user_agent: "verif/relay".to_string(),
+		};
+		let _ = client.write_all(&wire_msg(&Msg::new(Type::Hand, hand, ProtocolVersion(1)).ok()?));
+		read_frame_type(&mut client, 10_000)?;
+		let peer = t.join().ok()??;
+		Some(FakePeer { id, peer: Arc::new(peer), remote: Some(client), outbound: false, banned: false, alive: true })
+	}
+}
+
+struct RelayRun {
+	m: Mon,
+	fakes: Vec<FakePeer>,
+}
+
+impl RelayRun {
+	fn world(&mut self) {
+		let members: Vec<bool> = self
+			.fakes
+			.iter()
+			.map(|f| self.m.n.peers.iter().into_iter().any(|p| Arc::ptr_eq(&p, &f.peer)))
+			.collect();
+		let v: Vec<String> = self
+			.fakes
+			.iter()
+			.zip(members.iter())
+			.map(|(f, mem)| format!("{}:{}:{}:{}:{}", f.id, f.banned as u8, f.alive as u8, f.outbound as u8, *mem as u8))
+			.collect();
+		self.m.n.raw(&format!("pool rworld peers=[{}]", v.join(",")));
+	}
+
+	fn add_peer(&mut self, outbound: bool) -> bool {
+		let id = self.fakes.len() + 1;
+		let g = self.m.n.kit.genesis.hash();
+		match make_fake_peer(id, g, outbound) {
+			Some(f) => {
+				let r = self.m.n.peers.add_connected(f.peer.clone());
+				self.m.n.stat(&format!("relay:peer-added:{}:{}", if outbound { "outbound" } else { "inbound" }, if r.is_ok() { "ok" } else { "err" }));
+				self.fakes.push(f);
+				self.world();
+				true
+			}
+			None => {
+				self.m.n.stat("relay:fake-peer-not-built");
+				false
+			}
+		}
+	}
+
+	/// the remote end goes away; wait until the peer's connection has noticed (sends fail)
+	fn kill(&mut self, idx: usize) {
+		if let Some(s) = self.fakes[idx].remote.take() {
+			let _ = s.shutdown(std::net::Shutdown::Both);
+		}
+		let t0 = std::time::Instant::now();
+		let mut dead = false;
+		while t0.elapsed().as_secs() < 20 {
+			if self.fakes[idx].peer.send_ping(grin_core::pow::Difficulty::from_num(1), 0).is_err() {
+				dead = true;
+				break;
+			}
+			std::thread::sleep(std::time::Duration::from_millis(50));
+		}
+		self.fakes[idx].alive = !dead;
+		let connected = self.fakes[idx].peer.is_connected();
+		// the server's housekeeping (`Peers::check_all`, run with every ping round): the dead peer leaves the
+		// `Peers` map - the epoch still holds it
+		let before = self.m.n.peers.iter().count();
+		self.m.n.peers.check_all(grin_core::pow::Difficulty::from_num(1), 0);
+		let after = self.m.n.peers.iter().count();
+		self.m.n.stat(&format!(
+			"relay:remote-end-closed:sends-fail={}:is_connected-still={}:check_all-removed-{}-of-{}-peers",
+			dead,
+			connected,
+			before - after.min(before),
+			before
+		));
+		self.world();
+	}
+
+	fn ban(&mut self, idx: usize) {
+		self.fakes[idx].peer.set_banned();
+		self.fakes[idx].banned = true;
+		self.m.n.stat("relay:peer-banned");
+		self.world();
+	}
+
+	/// a stem submission; afterwards the sockets tell which fake peer got a StemTransaction frame
+	fn push(&mut self, rng: &mut Rng, src: TxSource, label: &str) {
+		let free = self.m.n.free_utxo();
+		if free.is_empty() {
+			return;
+		}
+		let o = *rng.pick(&free);
+		let fee = fee_for(rng, 1, 1);
+		let tx = match self.m.n.spend(&[o], 1, fee) {
+			Some(t) => t,
+			None => return,
+		};
+		let t = self.m.n.p_tx(&tx);
+		let header = self.m.n.node.head_header().unwrap();
+		let pool = self.m.n.pool.clone();
+		let stem_epoch = self.m.net.is_stem();
+		let r = catch(std::panic::AssertUnwindSafe(|| pool.write().add_to_pool(src, tx.clone(), true, &header)));
+		let res = match &r {
+			Ok(Ok(())) => "ok".to_string(),
+			Ok(Err(e)) => format!("err:{}", perr(e)),
+			Err(p) => format!("panic:{}", p.replace(' ', "_")),
+		};
+		let lhs = format!(
+			"pool rpush t{} src={} stem=1 stemepoch={} always={} form=v3",
+			t,
+			src_letter(src),
+			if stem_epoch { 1 } else { 0 },
+			if self.m.dcfg.always_stem_our_txs { 1 } else { 0 }
+		);
+		self.m.n.raw(&format!("{} => {}", lhs, res));
+		if res.starts_with("panic") {
+			self.m.n.raw(&format!("#ORACLE-FAIL C14 node-pool-panicked hist={} {} => {}", self.m.n.name, lhs, res));
+		}
+		// who got it?
+		let mut got: Vec<usize> = vec![];
+		for f in self.fakes.iter_mut() {
+			if let Some(s) = f.remote.as_mut() {
+				// (pings of the liveness probe may sit in front)
+				let mut n = 0;
+				while let Some(ty) = read_frame_type(s, 150) {
+					if ty == 14 {
+						got.push(f.id);
+					}
+					n += 1;
+					if n > 8 {
+						break;
+					}
+				}
+			}
+		}
+		let in_stem = self.m.n.pool.read().stempool.entries.iter().any(|e| e.tx.kernels() == tx.kernels());
+		let in_tx = self.m.n.pool.read().txpool.entries.iter().any(|e| e.tx.kernels() == tx.kernels());
+		self.m.n.stat(&format!(
+			"relay:{}:{}:{}:{}:frames-at={:?}:{}",
+			label,
+			src_letter(src),
+			if stem_epoch { "stem-epoch" } else { "fluff-epoch" },
+			res,
+			got,
+			if in_stem { "kept-in-stempool" } else if in_tx { "fluffed" } else { "not-pooled" }
+		));
+		if got.len() > 1 {
+			self.m.n.raw(&format!("#ORACLE-FAIL C14 node-stem-transaction-sent-to-several-peers hist={} {}: {:?}", self.m.n.name, lhs, got));
+		}
+		if !got.is_empty() && !in_stem {
+			self.m.n.raw(&format!("#ORACLE-FAIL C14 node-stem-transaction-relayed-and-fluffed hist={} {}: relayed to {:?} but not kept in the stempool", self.m.n.name, lhs, got));
+		}
+		if let Some(id) = got.first() {
+			self.m.n.raw(&format!("pool rcur => p{}", id));
+		}
+		self.m.n.p_obs(&lhs);
+	}
+}
+
+fn run_relay_history(work: &str, hist: usize, seed: u64) -> (String, BTreeMap<String, u64>) {
+	let mut rng = Rng::new(seed.wrapping_mul(11_000_027).wrapping_add(30_011 * (hist as u64 + 1)));
+	let stem_probability = if hist % 2 == 0 { 100 } else { 0 };
+	let dcfg = DandelionConfig { epoch_secs: 60_000, embargo_secs: EMBARGO_SECS, aggregation_secs: AGG_SECS, stem_probability, always_stem_our_txs: true };
+	let m = Mon::with_cfg(work, &format!("r{}", hist), dcfg.clone(), 50, 50);
+	let mut r = RelayRun { m, fakes: vec![] };
+	r.m.n.p_cfg();
+	r.m.n.raw(&format!("pool dcfg epoch={} embargo={} agg={} prob={} always=1", dcfg.epoch_secs, dcfg.embargo_secs, dcfg.aggregation_secs, dcfg.stem_probability));
+	for k in 0..9 {
+		let parent = r.m.n.head;
+		let mut txs = vec![];
+		if k >= 4 {
+			let free = r.m.n.free_utxo();
+			if let Some(o) = free.first().cloned() {
+				if let Some(t) = r.m.n.spend(&[o], 3, 5) {
+					txs.push(t);
+				}
+			}
+		}
+		if let Some(id) = build_with_fallback(&mut r.m.n, parent, 1, txs) {
+			r.m.n.p_deliver(id, Options::NONE, "warm-up");
+		}
+	}
+	r.world();
+	if hist % 2 == 1 {
+		// a fluff epoch: only our own (pushed) transactions ask the relay
+		if r.m.t_epoch_next().is_none() {
+			let RelayRun { m, .. } = r;
+			let Mon { n, .. } = m;
+			let Node { out, stats, .. } = n;
+			return (out, stats);
+		}
+	}
+	// no peer at all; an inbound peer only
+	r.push(&mut rng, TxSource::Broadcast, "no-peers");
+	r.push(&mut rng, TxSource::PushApi, "no-peers");
+	r.add_peer(false);
+	r.push(&mut rng, TxSource::PushApi, "inbound-peer-only");
+	// the first outbound peer becomes the relay
+	r.add_peer(true);
+	r.push(&mut rng, TxSource::PushApi, "one-outbound-peer");
+	r.push(&mut rng, TxSource::Broadcast, "one-outbound-peer");
+	// a second outbound peer: the relay does not change
+	r.add_peer(true);
+	r.push(&mut rng, TxSource::PushApi, "second-outbound-peer-added");
+	// the relay's remote end goes away: the peer still counts as connected, sends fail -> fluff;
+	// the second, live peer is not used
+	let relay_idx = 1;
+	r.kill(relay_idx);
+	r.push(&mut rng, TxSource::PushApi, "relay-connection-gone");
+	r.push(&mut rng, TxSource::Broadcast, "relay-connection-gone");
+	// only a ban makes relay_peer choose again
+	r.ban(relay_idx);
+	r.push(&mut rng, TxSource::PushApi, "relay-banned");
+	r.push(&mut rng, TxSource::Broadcast, "relay-banned");
+	// the next epoch chooses among the outbound connected peers
+	if r.m.t_epoch_next().is_some() {
+		r.push(&mut rng, TxSource::PushApi, "after-next-epoch");
+	}
+	// a block from the mineable set
+	let set = r.m.n.pool.read().prepare_mineable_transactions().unwrap_or_default();
+	let parent = r.m.n.head;
+	if let Some(id) = build_with_fallback(&mut r.m.n, parent, 1, set) {
+		r.m.n.p_deliver(id, Options::NONE, "mineable-set");
+	}
+	for f in r.fakes.iter() {
+		f.peer.stop();
+	}
+	let RelayRun { m, .. } = r;
+	let Mon { n, .. } = m;
+	let Node { out, stats, .. } = n;
+	(out, stats)
+}
+
 fn run_monitor_history(work: &str, hist: usize, seed: u64, rounds: usize) -> (String, BTreeMap<String, u64>) {
 	let mut rng = Rng::new(seed.wrapping_mul(7_000_003).wrapping_add(90_001 * (hist as u64 + 1)));
 	// stem_probability 0: every epoch after the first is a fluff epoch (the stempool fills up and
@@ -2170,7 +2500,8 @@ fn main() {
 	let thorough = tier_thorough();
 	let args: Vec<String> = std::env::args().collect();
 	let clock = args.get(1).map(|s| s == "clock").unwrap_or(false);
-	let monitor = clock || args.get(1).map(|s| s == "monitor").unwrap_or(false);
+	let relay = args.get(1).map(|s| s == "relay").unwrap_or(false);
+	let monitor = clock || relay || args.get(1).map(|s| s == "monitor").unwrap_or(false);
 	if monitor {
 		// `monitor_transactions` spawns its own thread: it reads the process-wide parameters, as
 		// in a running node (the worker threads of this harness set the same values thread-locally)
@@ -2179,7 +2510,7 @@ fn main() {
 		global::init_global_accept_fee_base(FEE_BASE);
 	}
 	let args: Vec<String> = if monitor { args[1..].to_vec() } else { args };
-	let nh: usize = args.get(1).and_then(|s| s.parse().ok()).unwrap_or(if clock { if thorough { 6 } else { 2 } } else if monitor { if thorough { 12 } else { 3 } } else if thorough { 10 } else { 3 });
+	let nh: usize = args.get(1).and_then(|s| s.parse().ok()).unwrap_or(if relay { 2 } else if clock { if thorough { 6 } else { 2 } } else if monitor { if thorough { 12 } else { 3 } } else if thorough { 10 } else { 3 });
 	let rounds: usize = args.get(2).and_then(|s| s.parse().ok()).unwrap_or(if monitor { if thorough { 20 } else { 6 } } else if thorough { 30 } else { 10 });
 	// the regular run ends with the scripted reorg-replay histories
 	const NREPLAY: usize = 3;
@@ -2210,7 +2541,9 @@ fn main() {
 					let dir = format!("{}/n{}", work, h);
 					let _ = std::fs::create_dir_all(&dir);
 					let r = std::panic::catch_unwind(std::panic::AssertUnwindSafe(|| {
-						if clock {
+						if relay {
+							run_relay_history(&dir, h, seed)
+						} else if clock {
 							run_clock_history(&dir, h, seed)
 						} else if monitor {
 							run_monitor_history(&dir, h, seed, rounds)
@@ -2240,7 +2573,7 @@ fn main() {
 	writeln!(
 		lock,
 		"#STAT poolnode{}: real Chain + servers::ChainToPoolAndNetAdapter + TransactionPool over PoolToChainAdapter{}, Peers without peers; {} histories of {} rounds{}; accept_fee_base {}",
-		if clock { " clock (tx_at of stem / reorg-cache entries set around the timers' boundaries, calls made within one wall-clock second: epoch_secs 4, aggregation_secs 20, embargo_secs 100, reorg_cache_period 30 / 1 / 0 min)" } else if monitor { " monitor" } else { "" },
+		if relay { " relay (real p2p::Peer objects over local sockets in the real Peers map: DandelionEpoch::relay_peer / send_stem_transaction)" } else if clock { " clock (tx_at of stem / reorg-cache entries set around the timers' boundaries, calls made within one wall-clock second: epoch_secs 4, aggregation_secs 20, embargo_secs 100, reorg_cache_period 30 / 1 / 0 min)" } else if monitor { " monitor" } else { "" },
 		if monitor { " and PoolToNetAdapter; NetToChainAdapter::transaction_received, dandelion_monitor phases and mine_block::get_block through grin_servers::verif_export" } else { "" },
 		nh,
 		rounds,
